@@ -45,6 +45,9 @@ def make_psds(seed, lead, D, tk, nk):
         elif tk == 'rank2':
             b = A.cnormal(r, (D,))
             Pxx[idx] = np.outer(a, a.conj()) + 0.3 * np.outer(b, b.conj())
+        elif tk == 'loud':
+            # target 50 ... 60 dB above the noise (the quotients are scale free)
+            Pxx[idx] = (A.hpd(seed, D, 50.0, 'c12x', idx) * 3 + np.outer(a, a.conj())) * 1e5 * (1 + 9 * (sum(idx) % 2))
         elif tk == 'dominant':
             # a strongly dominant source that is NOT exactly rank one (diffuse part 50 dB below)
             Pxx[idx] = np.outer(a, a.conj()) + 1e-5 * A.hpd(seed, D, 20.0, 'c12xd', idx)
@@ -269,7 +272,7 @@ def subchecks(tier, seed):
         for seed in seeds_:
             for D in (2, 3, 5, 8):
                 for lead in leads:
-                    for tk in ('rank1', 'rank2', 'full', 'real_full', 'diag_up', 'axis_rank1', 'dominant'):
+                    for tk in ('rank1', 'rank2', 'full', 'real_full', 'diag_up', 'axis_rank1', 'dominant', 'loud'):
                         for nk in ('identity', 'cond1e3', 'cond1e6', 'diag'):
                             for use_eig in (False, True):
                                 for layout in ('c_readonly', 'fortran') + (('lead_transposed',) if len(lead) >= 2 else ()):
@@ -281,7 +284,7 @@ def subchecks(tier, seed):
         for seed in seeds_:
             for D in (2, 3, 5, 8):
                 for lead in leads:
-                    for tk in ('rank1', 'rank2', 'full', 'real_full', 'diag_up', 'diag_down', 'axis_rank1', 'dominant'):
+                    for tk in ('rank1', 'rank2', 'full', 'real_full', 'diag_up', 'diag_down', 'axis_rank1', 'dominant', 'loud'):
                         for scaling in (None, 'trace', 'eigenvalue'):
                             yield (D, lead, tk, scaling, seed)
             # stacks of a few thousand matrices (e.g. sources x 513 bins, or one matrix per frame)
